@@ -62,7 +62,8 @@ static void check_state(const Family& f, const std::string& label, Obj& o, Repor
       std::string oa = o.obs(), ob = r1->obs(), oc = r2->obs();
       c.ok("continue-keeps-content-identical", oa == ob && oa == oc, "after " + o.cont_name(i) + ": original " + oa.substr(0, 300) + " VS restored " + (oa == ob ? oc : ob).substr(0, 300));
       rep.transitions++;
-      if (!(f.unordered_entries || o.unordered_layout()) && o.ser(0) != r1->ser(0)) rep.count("continued_images_differ_bytewise(diagnostic)");
+      // serialization can be a mutating operation (t-digest compresses): apply it to all three or to none
+      { Bytes x = o.ser(0), y = r1->ser(0), z = r2->ser(0); if (!(f.unordered_entries || o.unordered_layout()) && (x != y || x != z)) rep.count("continued_images_differ_bytewise(diagnostic)"); }
     }
   } catch (const std::exception& e) { c.fail("unexpected-exception", std::string("threw: ") + e.what()); }
   if (asan_errors() != a0) c.fail("asan", "AddressSanitizer report while round-tripping this state");
